@@ -174,7 +174,15 @@ def build(shape, L, tag):
             j = nxt(i, L)
             body += [f"  subroutine pf{i}_{T}(f, n)", f"    procedure(pf{j}_{T}) :: f", "    integer :: n",
                      f"    call f(pf{i}_{T}, n)", "  end subroutine"]
-        body += [f"  subroutine drv_{T}()", f"    call pf0_{T}(pf{nxt(0, L)}_{T}, 1)", "  end subroutine",
+        # hosts with two dummy procedures declared with the host itself / with each other
+        body += [f"  subroutine pg_{T}(f, g)", f"    procedure(pg_{T}) :: f, g", f"    call f(g, f)",
+                 f"    call g(pg_{T}, f)", "  end subroutine",
+                 f"  subroutine ph_{T}(f, g, n)", f"    procedure(pk_{T}) :: f", f"    procedure(pk_{T}), pointer :: g",
+                 "    integer :: n", "    call f(g, f, n)", "  end subroutine",
+                 f"  subroutine pk_{T}(f, g, n)", f"    procedure(ph_{T}) :: f, g", "    integer :: n",
+                 "    call g(f, g, n)", "  end subroutine"]
+        body += [f"  subroutine drv_{T}()", f"    call pf0_{T}(pf{nxt(0, L)}_{T}, 1)",
+                 f"    call pg_{T}(pg_{T}, pg_{T})", f"    call ph_{T}(pk_{T}, pk_{T}, 1)", "  end subroutine",
                  f"end module mpi_{T}"]
         f[f"pi_{T}.f90"] = "\n".join(body) + "\n"
         brk = (f"pi_{T}.f90", f"    procedure(pf{nxt(0, L)}_{T}) :: f", "    external :: f")
@@ -268,6 +276,10 @@ def gen_sched(g):
     shape, L, closure = combos[i % len(combos)]
     tag = gen.rand_ident(rng, 3)
     files, brk = build(shape, L, tag)
+    if rng.random() < 0.4:
+        # optional statements are optional: the same shapes without any IMPLICIT statement
+        files = {n: "".join(ln for ln in t.splitlines(True) if ln.strip().lower() != "implicit none")
+                 for n, t in files.items()}
     limit = rng.choice([500, 1000, 1000, 5000])
     argv = ["--incremental_sync", "--disable_autoupdate", "--recursion_limit", str(limit)]
     if rng.random() < 0.3:
